@@ -131,21 +131,23 @@ def run_case(case):
             elif k == "Clear":
                 ts.clear()
             elif k == "Update":
-                ts.update(*[[val(a) for a in l] for l in op[1]])
+                ts.update(*[ts if l == "self" else [val(a) for a in l] for l in op[1]])
             elif k in ("Ior", "Iand", "Isub", "Ixor"):
                 items = [val(a) for a in op[2]]
-                arg = (set(items) if op[1] == "set" else frozenset(items) if op[1] == "frozenset" else items)
+                arg = (set(items) if op[1] == "set" else frozenset(items) if op[1] == "frozenset" else
+                       TraitSet(items) if op[1] == "traitset" else      # operand validated by other rules (none)
+                       ts if op[1] == "self" else items)                # the receiver as its own operand
                 f = {"Ior": operator.ior, "Iand": operator.iand, "Isub": operator.isub,
                      "Ixor": operator.ixor}[k]
                 r = f(ts, arg)
                 if r is not ts:
                     raise RuntimeError("in-place operator returned a new object")
             elif k == "DiffUpdate":
-                ts.difference_update(*[[val(a) for a in l] for l in op[1]])
+                ts.difference_update(*[ts if l == "self" else [val(a) for a in l] for l in op[1]])
             elif k == "InterUpdate":
-                ts.intersection_update(*[[val(a) for a in l] for l in op[1]])
+                ts.intersection_update(*[ts if l == "self" else [val(a) for a in l] for l in op[1]])
             elif k == "SymDiffUpdate":
-                ts.symmetric_difference_update([val(a) for a in op[1]])
+                ts.symmetric_difference_update(ts if op[1] == "self" else [val(a) for a in op[1]])
             elif k == "Copy":
                 if op[1] == "copy":
                     new = copy.copy(ts)
